@@ -148,7 +148,8 @@ fn event_json(ev: &wax::verif::Event, strip: &Path) -> Value {
 fn rel_text(p: &Path, strip: &Path) -> Value {
     // a relative path is relative to the scratch directory (scenarios with a relative base run there)
     if p.is_relative() && !p.as_os_str().is_empty() {
-        let r: PathBuf = p.components().filter(|c| !matches!(c, std::path::Component::CurDir)).collect();
+        let base = REL_BASE.lock().unwrap().clone();
+        let r: PathBuf = base.components().chain(p.components()).filter(|c| !matches!(c, std::path::Component::CurDir)).collect();
         return json!({"in": true, "p": cps(&r.to_string_lossy())});
     }
     match p.strip_prefix(strip) {
@@ -156,6 +157,10 @@ fn rel_text(p: &Path, strip: &Path) -> Value {
         Err(_) => json!({"in": false, "p": cps(&p.to_string_lossy())}),
     }
 }
+
+/// what relative paths of the scenario in progress are relative to, beneath the scratch directory (scenarios with a
+/// relative base change the current directory and run one after the other)
+static REL_BASE: std::sync::Mutex<PathBuf> = std::sync::Mutex::new(PathBuf::new());
 
 type BoxFn = Box<dyn FnMut(&dyn Entry) -> Option<EntryResidue>>;
 
@@ -280,12 +285,19 @@ pub fn run_scenario(sc: &Value, top: &Path) -> Value {
     // (scenarios run one after the other): `root/a` and `./root/a`
     if spelling == "rel" || spelling == "reldot" {
         std::env::set_current_dir(top).expect("chdir to the scratch directory");
+        *REL_BASE.lock().unwrap() = PathBuf::new();
+    }
+    // "empty": the walked directory is the current directory and is given as the empty path
+    if spelling == "empty" {
+        std::env::set_current_dir(&walked).expect("chdir to the walked directory");
+        *REL_BASE.lock().unwrap() = walked.strip_prefix(top).expect("walked beneath top").to_path_buf();
     }
     let base: PathBuf = match spelling {
         "trailing" => PathBuf::from(format!("{}/", walked.display())),
         "dot" => walked.join("."),
         "rel" => walked.strip_prefix(top).expect("walked beneath top").to_path_buf(),
         "reldot" => Path::new(".").join(walked.strip_prefix(top).expect("walked beneath top")),
+        "empty" => PathBuf::new(),
         _ => walked.clone(),
     };
     let link = if sc["follow"].as_bool().unwrap_or(false) { LinkBehavior::ReadTarget } else { LinkBehavior::ReadFile };
